@@ -22,7 +22,9 @@ from gsv.contracts import common
 ID_SETS = [(0, 1, 2), (10, 3, -1), (2 ** 63 + 5, -7, 0)]
 
 
-def cut_error_edge_class(k, ghost):
+def cut_error_edge_class(k, ghost, point_rot=None, opaque_chi2=False):
+    """point_rot: a rotation matrix R; the Jacobians reported for POINT vertices (PoseR2/PoseR3) are J . R^T -- what the
+    edges of a graph moved by a rigid transform with rotation R report (C07 edge-level facts)."""
     r = k.r
     np = k.np
     cache = {}
@@ -39,6 +41,14 @@ def cut_error_edge_class(k, ghost):
         def is_valid(self):
             return self._is_valid()
 
+        def calc_chi2(self):
+            if not opaque_chi2:
+                return r.BaseEdge.calc_chi2(self)
+            key = (self.tag, ghost.s, "chi2")
+            if key not in cache:
+                cache[key] = k.nonneg("chi2_%s_s%d" % (self.tag, ghost.s))      # >= 0: positive semi-definite information
+            return cache[key]
+
         def calc_error(self):
             key = (self.tag, ghost.s, "e")
             if key not in cache:
@@ -50,7 +60,13 @@ def cut_error_edge_class(k, ghost):
             if key not in cache:
                 cache[key] = [k.matrix("J_%s_s%d_%d" % (self.tag, ghost.s, i), self.m, v.pose.COMPACT_DIMENSIONALITY)
                               for i, v in enumerate(self.vertices)]
-            return [np.array(J) for J in cache[key]]
+            out = []
+            for J, v in zip(cache[key], self.vertices):
+                J = np.array(J)
+                if point_rot is not None and isinstance(v.pose, (r.PoseR2, r.PoseR3)):
+                    J = np.dot(J, np.transpose(point_rot))
+                out.append(J)
+            return out
     return CutErrEdge
 
 
@@ -62,10 +78,10 @@ def type_name(k, pose):
     raise KeyError(type(pose))
 
 
-def build(k, shape, ghost):
+def build(k, shape, ghost, point_rot=None, opaque_chi2=False):
     """Returns (graph, vertices, edges)."""
     r = k.r
-    Cut = cut_error_edge_class(k, ghost)
+    Cut = cut_error_edge_class(k, ghost, point_rot, opaque_chi2)
     vs = []
     types = {}
     for i, (vid, T, fixed) in enumerate(shape["vertices"]):
@@ -74,13 +90,13 @@ def build(k, shape, ghost):
     es = []
     for j, (kind, ids, m) in enumerate(shape["edges"]):
         if kind == "cut":
-            es.append(Cut(list(ids), k.sym_matrix("Om%d" % j, m), m))
+            es.append(Cut(list(ids), k.spd_matrix("Om%d" % j, m), m))
         elif kind == "odometry":
             T = types[ids[0]]
-            es.append(r.EdgeOdometry(list(ids), k.sym_matrix("Om%d" % j, POSE_C[T]), k.pose(T, "z%d" % j)))
+            es.append(r.EdgeOdometry(list(ids), k.spd_matrix("Om%d" % j, POSE_C[T]), k.pose(T, "z%d" % j)))
         elif kind == "landmark":
             TP, TL = types[ids[0]], types[ids[1]]
-            es.append(r.EdgeLandmark(list(ids), k.sym_matrix("Om%d" % j, POSE_C[TL]), k.pose(TL, "z%d" % j), k.pose(TP, "off%d" % j), 0))
+            es.append(r.EdgeLandmark(list(ids), k.spd_matrix("Om%d" % j, POSE_C[TL]), k.pose(TL, "z%d" % j), k.pose(TP, "off%d" % j), 0))
         else:
             raise KeyError(kind)
     g = r.Graph(es, vs)
